@@ -602,11 +602,58 @@ Definition run_policy_case (toks : list (list byte)) : list byte :=
   | _ => [98; 97; 100; 99; 97; 115; 101] ++ NL
   end.
 
+(** reads (single reads, or plain set reads into one reused set) with up to three seeks to a given record position in
+    between: the call with index [i] is a seek when [i mod j = j - 1] and seeks are left.  A seek allocates nothing:
+    `seq_pos.clear()` keeps the vector, the buffer is refilled in place. *)
+Fixpoint fa_seekrun_allocs (fuel ffuel n : nat) (sets : bool) (j i left line byte_ : nat)
+         (m : fa_marks) (ms : fa_set_marks) (r : fa) (rs : fa_set) : list bool :=
+  match n with
+  | 0 => []
+  | S k =>
+      if (0 <? left) && ((i mod j) =? (j - 1)) then
+        let '(r', _) := fa_seek ffuel r line byte_ in
+        let m' := fa_next_marks m r' in
+        (negb (fa_marks_eqb m' m) || consulted (log r) (log r'))
+          :: fa_seekrun_allocs fuel ffuel k sets j (S i) (left - 1) line byte_ m' ms r' rs
+      else if sets then
+        let '(r', rs', o) := fa_read_set fuel ffuel None r rs in
+        let m' := fa_set_reader_marks m r' rs' in
+        let ms' := fa_set_marks_after ms rs' in
+        fa_set_allocs m ms r r' rs' o :: fa_seekrun_allocs fuel ffuel k sets j (S i) left line byte_ m' ms' r' rs'
+      else
+        let r' := fst (fa_next fuel ffuel r) in
+        let m' := fa_next_marks m r' in
+        fa_next_allocs m r r' :: fa_seekrun_allocs fuel ffuel k sets j (S i) left line byte_ m' ms r' rs
+  end.
+
+Fixpoint fq_seekrun_allocs (fuel ffuel n : nat) (sets : bool) (j i left line byte_ : nat)
+         (m : fq_marks) (ms : fq_set_marks) (r : fq) (rs : fq_set) : list bool :=
+  match n with
+  | 0 => []
+  | S k =>
+      if (0 <? left) && ((i mod j) =? (j - 1)) then
+        let '(r', _) := fq_seek ffuel r line byte_ in
+        let m' := fq_next_marks m r' in
+        (negb (fq_marks_eqb m' m) || consulted (qlog r) (qlog r'))
+          :: fq_seekrun_allocs fuel ffuel k sets j (S i) (left - 1) line byte_ m' ms r' rs
+      else if sets then
+        let '(r', rs', o) := fq_read_set fuel ffuel None r rs in
+        let m' := fq_next_marks m r' in
+        let ms' := fq_set_marks_after ms rs' in
+        fq_set_allocs m ms r r' rs' o :: fq_seekrun_allocs fuel ffuel k sets j (S i) left line byte_ m' ms' r' rs'
+      else
+        let r' := fst (fq_next fuel ffuel r) in
+        let m' := fq_next_marks m r' in
+        fq_next_allocs m r r' :: fq_seekrun_allocs fuel ffuel k sets j (S i) left line byte_ m' ms r' rs
+  end.
+
 (** One allocation case: "al <fa|fq> <cap> <inp hex> <mode> <warm>" with mode
       next    every call is next()
       set     every call is read_record_set() into one reused set
       x<n>    every call is read_record_set_exact(.., n) into one reused set
       m<k>    k calls of next(), then read_record_set() into one reused set
+      kn<j>.<line>.<byte> / ks<j>.<line>.<byte>   single reads / plain set reads; every j-th call (at most three times)
+              is a seek to that position instead
     For every call the prediction of Model/Alloc.v whether the call may allocate (some
     high-water mark rises or the policy is consulted): "al pred=0100..." *)
 Definition run_alloc_case (toks : list (list byte)) : list byte :=
@@ -631,6 +678,17 @@ Definition run_alloc_case (toks : list (list byte)) : list byte :=
                                                      (fa_new capacity src pol_std) fa_set_empty)
             else map snd (fq_set_run_allocs fuel ffuel n (Some (undec cnt)) (fq_marks_new capacity) fq_set_marks_new
                                             (fq_new capacity src pol_std) fq_set_empty)
+        | 107 :: kind :: rest =>                        (* kn<j>.<line>.<byte> / ks<j>.<line>.<byte> *)
+            let sets := kind =? 115 in
+            match split_on 46 rest with
+            | jt :: lt :: bt :: _ =>
+                let j := Nat.max 1 (undec jt) in
+                if is_fa then fa_seekrun_allocs fuel ffuel (3 * n) sets j 0 3 (undec lt) (undec bt)
+                                (fa_marks_new capacity) fa_set_marks_new (fa_new capacity src pol_std) fa_set_empty
+                else fq_seekrun_allocs fuel ffuel (3 * n) sets j 0 3 (undec lt) (undec bt)
+                       (fq_marks_new capacity) fq_set_marks_new (fq_new capacity src pol_std) fq_set_empty
+            | _ => []
+            end
         | 109 :: kt =>                                  (* m<k>: k single reads, then sets *)
             let k := undec kt in
             if is_fa then
